@@ -7,7 +7,8 @@
    ([wall]) and, when aware, the UTC offset of THIS reading in microseconds and what
    tzinfo.tzname(None) answers.  A timedelta is a number of microseconds. *)
 From Coq Require Import String.
-Require Import OV.Base.Bytes OV.Base.Py.
+From Coq Require Import SpecFloat.
+Require Import OV.Base.Bytes OV.Base.Py OV.Base.PyFloat.
 Require Import OV.Model.C12_Calendar.
 Open Scope Z_scope.
 
@@ -91,11 +92,40 @@ Definition dt_cmp (o : cmpop) (a b : dt) : res bool :=
   end.
 Definition dt_le (a b : dt) : res bool := dt_cmp CLe a b.
 
-(* timedelta(seconds=s) / timedelta(0, s): the conversion of the Python number s to
-   microseconds (round-half-even for floats) is done by CPython in the harness; the
-   model receives s already in microseconds *)
-Definition td_of_seconds (s_us : Z) : Z := s_us.
-Definition td_of_days_seconds (days s_us : Z) : Z := days * US_PER_DAY + s_us.
+(* ---------------------------------------------------------------- timedelta(seconds=x) for a Python int or float x *)
+(* CPython (Modules/_datetimemodule.c accum / Lib/_pydatetime.py timedelta.__new__, same result): an int is exact; a float is
+   split by modf into integer part and fraction (both exact), the fraction is multiplied by 1e6 IN BINARY64 (one rounding),
+   and that product is rounded to the nearest integer, ties to even; infinities raise OverflowError and NaN ValueError when
+   the integer part is converted.  The normalised result must have |days| <= 999999999 (OverflowError). *)
+Inductive pynum := PInt (z : Z) | PFloat (f : float64).
+
+Definition f_1e6 : float64 := f_normalize 1000000 0.
+(* nearest integer, ties to even, of a finite float's magnitude *)
+Definition rhe_abs (p : float64) : Z :=
+  match p with S754_finite _ m e => round_half_even (Zpos m) e | _ => 0 end.
+(* |x| = ip + fm * 2^e with ip integer and 0 <= fm * 2^e < 1 *)
+Definition modf_abs (m : positive) (e : Z) : Z * Z :=
+  if 0 <=? e then (Zpos m * f_pow2 e, 0) else (Zpos m / f_pow2 (- e), Zpos m mod f_pow2 (- e)).
+Definition float_us (f : float64) : res Z :=
+  match f with
+  | S754_nan => Exn ValueError
+  | S754_infinity _ => Exn OverflowError
+  | S754_zero _ => Ok 0
+  | S754_finite s m e =>
+      let '(ip, fm) := modf_abs m e in
+      let usdouble := f_mul (f_normalize fm e) f_1e6 in
+      let us := ip * 1000000 + rhe_abs usdouble in
+      Ok (if s then - us else us)
+  end.
+Definition secs_us_raw (x : pynum) : res Z := match x with PInt z => Ok (z * US_PER_SEC) | PFloat f => float_us f end.
+
+Definition TD_MIN_US : Z := -999999999 * US_PER_DAY.
+Definition TD_MAX_US : Z := 1000000000 * US_PER_DAY - 1.
+Definition td_check (us : Z) : res Z := if (TD_MIN_US <=? us) && (us <=? TD_MAX_US) then Ok us else Exn OverflowError.
+(* timedelta(seconds=x) and timedelta(days, x), in microseconds *)
+Definition td_of_seconds (x : pynum) : res Z := match secs_us_raw x with Ok u => td_check u | Exn e => Exn e end.
+Definition td_of_days_seconds (days : Z) (x : pynum) : res Z :=
+  match secs_us_raw x with Ok u => td_check (days * US_PER_DAY + u) | Exn e => Exn e end.
 Definition td_gt (a b : Z) : bool := z_cmp CGt a b.
 
 (* calendar.timegm(now.timetuple()): whole seconds since 1970-01-01 of the wall reading *)
